@@ -42,11 +42,11 @@ class Killed(Exception):
 def lattice_spec(
     n=4, moves=None, workers=1, steps=20, seed=1, cap=None, wall=-1, n_jumps=2, maxlength=400,
     allowmaxlength=False, delete_old=False, delete_old_all=False, subcycles=1, screen=0,
-    engine="lattice", ensemble_engines=None, extra_engines=None, zeroswap=None, origin=0.0, lm1=None,
+    engine="lattice", ensemble_engines=None, extra_engines=None, zeroswap=None, origin=0.0, lm1=None, keep_side=False,
 ):
     moves = list(moves) if moves else ["sh"] * n
     return dict(
-        origin=origin, lm1=lm1,
+        origin=origin, lm1=lm1, keep_side=keep_side,
         n=n, moves=moves, workers=workers, steps=steps, seed=seed, cap=cap, wall=wall, n_jumps=n_jumps,
         maxlength=maxlength, allowmaxlength=allowmaxlength, delete_old=delete_old,
         delete_old_all=delete_old_all, subcycles=subcycles, screen=screen, engine=engine,
@@ -79,6 +79,8 @@ def lattice_config(spec):
         "subcycles": spec["subcycles"],
         "temperature": 1.0,
     }
+    if spec.get("keep_side"):
+        eng["side_files"] = True
     cfg = {
         "runner": {"workers": spec["workers"]},
         "simulation": {
@@ -99,6 +101,8 @@ def lattice_config(spec):
             "delete_old_all": spec["delete_old_all"],
         },
     }
+    if spec.get("keep_side"):
+        cfg["output"]["keep_traj_fnames"] = [".side"]
     if spec.get("seed") is None:
         del cfg["simulation"]["seed"]
     if spec.get("ensemble_engines"):
@@ -606,10 +610,16 @@ class Observer:
         nreal = state.n - 1
         # live paths: every referenced file exists, no file shared by two live paths
         owner = {}
+        kept_ext = list(state.config["output"].get("keep_traj_fnames", []) or [])
         for t in state._trajs[:-1]:
             for a in t.adress:
                 if not os.path.isfile(a):
                     self.bad("C14:file-of-live-path-missing", f"path {t.path_number}: {a}")
+                # files the configuration asks to keep along with the trajectory files (the plug-in engine writes one per file)
+                if kept_ext and t.path_number >= nreal and "_traj" in os.path.basename(a):  # (dumped single frames have no companion)
+                    for ext in kept_ext:
+                        if not os.path.isfile(os.path.splitext(a)[0] + ext):
+                            self.bad("C14:kept-companion-file-of-live-path-missing", f"path {t.path_number}: {os.path.splitext(a)[0] + ext}")
                 if a in owner and owner[a] != t.path_number:
                     self.bad("C14:file-shared-by-two-live-paths", f"{a}: {owner[a]} and {t.path_number}")
                 owner[a] = t.path_number
